@@ -4,6 +4,7 @@ design : Backfill_MC - client expected-parent chaining + syncer goroutine agains
 binding: (tv) real Syncer + BlockFetcherClient + TimeValidityWindow + BlockFetcherHandler (honest peer) against a scripted
          network; every response, SaveHistorical call and the final IsRepeat answers validated against Backfill_Trace"""
 import json
+import os
 import vlib
 
 LEVEL = "model_checking"
@@ -29,6 +30,9 @@ def describe(f):
 
 
 def run(ctx):
+    if ctx.quick:
+        # short JVM runs: C1-only JIT and two GC threads halve CPU and wall time on a loaded machine
+        os.environ.setdefault("JAVA_TOOL_OPTIONS", "-XX:TieredStopAtLevel=1 -XX:ParallelGCThreads=2")
     if ctx.only is None:
         vlib.tlc_mc(ctx, "Backfill_MC", ctx.pick("Backfill_MC_quick.cfg", "Backfill_MC.cfg"), coverage=True,
                     allow_zero=("ClientCheck",))  # only reachable when minTimestamp moves (UpdateSyncTarget, not modelled)
